@@ -3,6 +3,7 @@ package all
 
 import (
 	_ "verifharness/props/c02"
+	_ "verifharness/props/c04"
 	_ "verifharness/props/c08"
 	_ "verifharness/props/c09"
 )
